@@ -15,16 +15,21 @@
     XPath's — so precedence, associativity, unary minus, filters, paths, calls and node tests are
     structured as the abstract syntax says (`parse_render_model`, `parse_render_spec`); every positive
     double has such a spelling (`doubles_spellable`); the lexer inverts spelling for any white space
-    between tokens and for none wherever two tokens cannot merge — up to XPath's reading of the
-    operator names `or and div mod` as names where an operand is expected, which xsel applies to the
-    token list (`lexer_inverts_spelling`, `lexer_any_whitespace`, `lexer_without_whitespace`, their
-    `…_placed` forms, `tokeniser_without_whitespace`, `operator_name_rule`, `merging_pairs`); and end
-    to end on STRINGS: the characters of the canonical spelling of every well-formed tree with
+    between tokens and for none wherever two tokens cannot merge — up to the three passes xsel applies
+    to the token list (`lc.post`): XPath's reading of the operator names `or and div mod` as names
+    where an operand is expected, of axis names and node types as (parts of) function names in front
+    of `(`, and of `Digits '.'` as a Number (`lexer_inverts_spelling`, `lexer_any_whitespace`,
+    `lexer_without_whitespace`, their `…_placed` forms, `tokeniser_without_whitespace`,
+    `operator_name_rule`, `function_name_rule`, `trailing_dot_rule`, `lexer_passes`, `merging_pairs`);
+    and end to end on STRINGS: the characters of the canonical spelling of every well-formed tree with
     ordinary names are lexed and parsed back to that tree, under xsel's syntax and under XPath's
-    (`string_roundtrip_model`, `string_roundtrip_spec`), the two formulations of the operator-name
-    rule (xsel: on the tokens; the specification: in the parser) read every canonical spelling alike
-    (`model_and_spec_read_alike`), and an element called `div` can be selected
-    (`operator_names_are_names`).
+    (`string_roundtrip_model`, `string_roundtrip_spec`; none of the three passes changes a canonical
+    spelling: `canonical_spelling_operators_placed`, `canonical_spelling_keywords_and_dots_placed`),
+    the two formulations of the rules (xsel: on the tokens; the specification: in the parser) read
+    every canonical spelling alike (`model_and_spec_read_alike`), an element called `div` can be
+    selected (`operator_names_are_names`), `self()` and `p:text()` are function calls while `text()`
+    is the node test (`function_names_may_be_keywords`), and `1.` is the number 1 while `.5.` and
+    `1.5.` are errors (`trailing_dot_is_a_number`).
   NOT proved: that gogll's generated DFA and GLL engine implement that lexer and parser (differential),
   and completeness of the model parser for non-canonical spellings (differential: flag `ast`).
 -/
@@ -188,48 +193,61 @@ example : wfE (.bin .or (.bin .sub (.bin .sub (.num (.fin 1)) (.num (.fin 2))) (
     (.step (.step .root .descendantOrSelf .node .nil) .child (.qname ['p'] ['a']) (.cons (.call .ctx none ['l','a','s','t'] .nil) .nil))) = true := by
   decide +kernel
 
-/-! The lexer is the tokeniser `lexRaw` (keywords are always keyword tokens) followed by `lc.retag`:
-    nothing when `lc.opRule = false` (`lexSpec`: the parser decides, `Cfg.opNames`), and when
-    `lc.opRule = true` (`lexModel`) `retagOps true` — XPath 1.0 §3.7: an `or and div mod` keyword
-    where an operand is expected (at the start, after `@ :: : ( [ ,` or an operator) becomes the
-    `ncname` token of the same text.  `opsPlaced true ts`: there is no such keyword in `ts`. -/
+/-! The lexer is the tokeniser `lexRaw` (keywords are always keyword tokens) followed by `lc.post`, three
+    passes over the token list, each behind a switch — all off for `lexSpec` (the specification's parser
+    decides: `Cfg.opNames`, `Cfg.fnNames`, `Cfg.trailDot`), all on for `lexModel` (`grammar.newLexer`):
+    * `lc.opRule`: `retagOps true` — XPath 1.0 §3.7: an `or and div mod` keyword where an operand is
+      expected (at the start, after `@ :: : ( [ ,` or an operator) becomes the `ncname` token of the same
+      text.  `opsPlaced true ts`: there is no such keyword in `ts`.
+    * `lc.fnRule`: `retagFns false` — an axis-name or node-type keyword that is a function name (directly
+      in front of `(`; a node type only as the local part after `:`) or the prefix of one (`k : name (`)
+      becomes the `ncname` token of the same text.  `fnsPlaced false ts`: there is no such keyword.
+    * `lc.dotRule`: `dropTrailDots false false` — XPath's Number `Digits '.'`: a `.` directly after
+      integer-part digits and not directly before digits is dropped.  `dotsPlaced false false ts`: there is
+      no such `.`. -/
 
 /-- **lexer_inverts_spelling** — for well-formed tokens separated by single spaces -/
 theorem lexer_inverts_spelling (lc : LexCfg) (ts : List Tok) (h : ∀ t ∈ ts, tokOk lc t = true) :
-    lex lc (spellAll ts) = .ok (lc.retag (ts.map (fun t => ⟨t, false⟩))) :=
+    lex lc (spellAll ts) = .ok (lc.post (ts.map (fun t => ⟨t, false⟩))) :=
   lex_spellAll lc ts h
 
-/-- … exactly the tokens, when the rule is off or every operator name stands after an operand -/
+/-- … exactly the tokens, when for every rule that is on no token stands where the rule applies -/
 theorem lexer_inverts_spelling_placed (lc : LexCfg) (ts : List Tok) (h : ∀ t ∈ ts, tokOk lc t = true)
-    (hp : lc.opRule = true → opsPlaced true (ts.map (fun t => (⟨t, false⟩ : LTok))) = true) :
+    (ho : lc.opRule = true → opsPlaced true (ts.map (fun t => (⟨t, false⟩ : LTok))) = true)
+    (hf : lc.fnRule = true → fnsPlaced false (ts.map (fun t => (⟨t, false⟩ : LTok))) = true)
+    (hd : lc.dotRule = true → dotsPlaced false false (ts.map (fun t => (⟨t, false⟩ : LTok))) = true) :
     lex lc (spellAll ts) = .ok (ts.map (fun t => ⟨t, false⟩)) :=
-  lex_spellAll_placed lc ts h hp
+  lex_spellAll_placed lc ts h ho hf hd
 
 /-- **lexer_any_whitespace** — any non-empty white-space runs between the tokens, and trailing white
     space, give the same tokens -/
 theorem lexer_any_whitespace (lc : LexCfg) (items : List (Chars × Tok)) (trail : Chars)
     (h : ∀ it ∈ items, it.1 ≠ [] ∧ (∀ c ∈ it.1, isSpace lc c = true) ∧ tokOk lc it.2 = true)
     (htr : ∀ c ∈ trail, isSpace lc c = true) :
-    lex lc (spellPadded items trail) = .ok (lc.retag (items.map (fun it => ⟨it.2, false⟩))) :=
+    lex lc (spellPadded items trail) = .ok (lc.post (items.map (fun it => ⟨it.2, false⟩))) :=
   lex_extra_space lc items trail h htr
 
 theorem lexer_any_whitespace_placed (lc : LexCfg) (items : List (Chars × Tok)) (trail : Chars)
     (h : ∀ it ∈ items, it.1 ≠ [] ∧ (∀ c ∈ it.1, isSpace lc c = true) ∧ tokOk lc it.2 = true)
     (htr : ∀ c ∈ trail, isSpace lc c = true)
-    (hp : lc.opRule = true → opsPlaced true (items.map (fun it => (⟨it.2, false⟩ : LTok))) = true) :
+    (ho : lc.opRule = true → opsPlaced true (items.map (fun it => (⟨it.2, false⟩ : LTok))) = true)
+    (hf : lc.fnRule = true → fnsPlaced false (items.map (fun it => (⟨it.2, false⟩ : LTok))) = true)
+    (hd : lc.dotRule = true → dotsPlaced false false (items.map (fun it => (⟨it.2, false⟩ : LTok))) = true) :
     lex lc (spellPadded items trail) = .ok (items.map (fun it => ⟨it.2, false⟩)) :=
-  lex_extra_space_placed lc items trail h htr hp
+  lex_extra_space_placed lc items trail h htr ho hf hd
 
 /-- **lexer_without_whitespace** — the space before a token may be left out wherever the two tokens
     cannot merge; the token is then marked as adjacent -/
 theorem lexer_without_whitespace (lc : LexCfg) (items : List (Bool × Tok)) (h : glueAllOk lc items = true) :
-    lex lc (spellGlue items) = .ok (lc.retag (glueToks items)) :=
+    lex lc (spellGlue items) = .ok (lc.post (glueToks items)) :=
   lex_spellGlue lc items h
 
 theorem lexer_without_whitespace_placed (lc : LexCfg) (items : List (Bool × Tok))
-    (h : glueAllOk lc items = true) (hp : lc.opRule = true → opsPlaced true (glueToks items) = true) :
+    (h : glueAllOk lc items = true) (ho : lc.opRule = true → opsPlaced true (glueToks items) = true)
+    (hf : lc.fnRule = true → fnsPlaced false (glueToks items) = true)
+    (hd : lc.dotRule = true → dotsPlaced false false (glueToks items) = true) :
     lex lc (spellGlue items) = .ok (glueToks items) :=
-  lex_spellGlue_placed lc items h hp
+  lex_spellGlue_placed lc items h ho hf hd
 
 /-- the tokeniser alone (the generated DFA) reads back exactly the tokens, for every `lc` -/
 theorem tokeniser_without_whitespace (lc : LexCfg) (items : List (Bool × Tok)) (h : glueAllOk lc items = true) :
@@ -254,6 +272,59 @@ theorem operator_name_rule (exp : Bool) (ts : List LTok) :
    fun i t t' hi hi' hne => retagOps_changes exp ts i t t' hi hi' hne,
    opsPlaced_of_retagOps_id exp ts, retagOps_id exp ts⟩
 
+/-- **function_name_rule** — what `retagFns` (the second pass of `lex lexModel`) does to a token list:
+    length, adjacency flags and the text of every token are kept; a token that is not an axis-name or
+    node-type keyword stays; a token that changes was such a keyword and becomes the name it spells;
+    and nothing at all changes iff no such keyword stands where a function name is read (`fnHere`:
+    directly in front of `(` — a node type only after `:` — or as the prefix in `k : name (`). -/
+theorem function_name_rule (pc : Bool) (ts : List LTok) :
+    (retagFns pc ts).length = ts.length
+    ∧ (retagFns pc ts).map (·.glued) = ts.map (·.glued)
+    ∧ (retagFns pc ts).map (·.tok.spell) = ts.map (·.tok.spell)
+    ∧ (∀ (i : Nat) (t : LTok), ts[i]? = some t → t.tok.isNameKw = false → (retagFns pc ts)[i]? = some t)
+    ∧ (∀ (i : Nat) (t t' : LTok), ts[i]? = some t → (retagFns pc ts)[i]? = some t' → t' ≠ t →
+        ∃ k : Kw, k.isOpName = false ∧ t.tok = .kw k ∧ t' = ⟨.ncname k.chars, t.glued⟩)
+    ∧ (retagFns pc ts = ts ↔ fnsPlaced pc ts = true) :=
+  ⟨retagFns_length pc ts, retagFns_glued pc ts, retagFns_spell pc ts,
+   fun i t hi h => retagFns_keeps pc ts i t hi h,
+   fun i t t' hi hi' hne => retagFns_changes pc ts i t t' hi hi' hne,
+   fnsPlaced_of_retagFns_id pc ts, retagFns_id pc ts⟩
+
+/-- **trailing_dot_rule** — what `dropTrailDots` (the third pass of `lex lexModel`) does: tokens are only
+    dropped, never changed or reordered (the kept tokens are a sublist of the given ones); a token that
+    is kept and not dropped stays in front (`dotHere`: a `.` that directly follows integer-part digits
+    and is not directly followed by digits is dropped, and the walk goes on with the next token no
+    longer adjacent); and nothing at all changes — equivalently, the length is kept — iff there is no
+    such `.`.  A list in which no `.` directly follows its predecessor is never changed. -/
+theorem trailing_dot_rule (pi pdot : Bool) (ts : List LTok) :
+    ((dropTrailDots pi pdot ts).map (·.tok)).Sublist (ts.map (·.tok))
+    ∧ (dropTrailDots pi pdot ts).length ≤ ts.length
+    ∧ (∀ (t : LTok) (r : List LTok), ts = t :: r → dotHere pi t r = false →
+        dropTrailDots pi pdot ts = t :: dropTrailDots (piNext pdot t) (t.tok == .p .dot) r)
+    ∧ (∀ (t : LTok) (r : List LTok), ts = t :: r → dotHere pi t r = true →
+        dropTrailDots pi pdot ts = dropTrailDots false false (unglueHead r))
+    ∧ (dropTrailDots pi pdot ts = ts ↔ dotsPlaced pi pdot ts = true)
+    ∧ ((dropTrailDots pi pdot ts).length = ts.length ↔ dotsPlaced pi pdot ts = true)
+    ∧ ((∀ t ∈ ts, (t.tok == .p .dot && t.glued) = false) → dotsPlaced pi pdot ts = true) :=
+  ⟨dropTrailDots_sublist pi pdot ts, dropTrailDots_length_le pi pdot ts,
+   fun t r e h => by subst e; exact dropTrailDots_keep pi pdot t r h,
+   fun t r e h => by subst e; exact dropTrailDots_drop pi pdot t r h,
+   ⟨dotsPlaced_of_dropTrailDots_id pi pdot ts, dropTrailDots_id pi pdot ts⟩,
+   dropTrailDots_length_eq_iff pi pdot ts,
+   dotsPlaced_of_no_glued_dot pi pdot ts⟩
+
+/-- the passes together: `lc.post` is the three passes in this order, it changes nothing when every
+    rule that is on finds nothing to do, it only drops tokens and keeps the text of those it keeps -/
+theorem lexer_passes (lc : LexCfg) (ts : List LTok) :
+    lc.post ts = lc.dotPass (lc.fnPass (lc.opPass ts))
+    ∧ ((lc.opRule = true → opsPlaced true ts = true) → (lc.fnRule = true → fnsPlaced false ts = true) →
+        (lc.dotRule = true → dotsPlaced false false ts = true) → lc.post ts = ts)
+    ∧ (lc.post ts).length ≤ ts.length
+    ∧ ((lc.post ts).map (·.tok.spell)).Sublist (ts.map (·.tok.spell))
+    ∧ lexModel.post ts = dropTrailDots false false (retagFns false (retagOps true ts))
+    ∧ lexSpec.post ts = ts :=
+  ⟨post_eq lc ts, post_id lc ts, post_length_le lc ts, post_sublist lc ts, post_lexModel ts, post_lexSpec ts⟩
+
 theorem lexSpec_is_tokeniser (cs : Chars) : lex lexSpec cs = lexRaw lexSpec cs := by
   rw [lex_eq]; cases lexRaw lexSpec cs <;> rfl
 
@@ -262,7 +333,7 @@ example : lex lexModel "child::a[@b='x']//c".toList =
     .ok [⟨.kw (.axis .child), false⟩, ⟨.p .coloncolon, true⟩, ⟨.ncname ['a'], true⟩, ⟨.p .lbrack, true⟩,
          ⟨.p .at, true⟩, ⟨.ncname ['b'], true⟩, ⟨.p .eq, true⟩, ⟨.lit false ['x'], true⟩, ⟨.p .rbrack, true⟩,
          ⟨.p .dslash, true⟩, ⟨.ncname ['c'], true⟩] := by
-  rfl
+  decide +kernel
 
 /-! ### end to end: tree → characters → tokens → tree
 
@@ -278,7 +349,18 @@ theorem canonical_spelling_operators_placed (e : Expr) :
     opsPlaced true (renderTop e) = true ∧ retagOps true (renderTop e) = renderTop e :=
   ⟨placed_renderTop e, retagOps_renderTop e⟩
 
-/-- the lexer (with the operator-name rule or without) reads the characters of the canonical spelling
+/-- … every axis-name keyword is followed by `::` and every node-type keyword stands after `::` in front
+    of `(` — the function-name rule changes nothing there — and every `.` that directly follows digits
+    is directly followed by the fraction digits — no `.` is dropped; so none of the three passes changes
+    the canonical spelling -/
+theorem canonical_spelling_keywords_and_dots_placed (e : Expr) :
+    fnsPlaced false (renderTop e) = true ∧ retagFns false (renderTop e) = renderTop e
+    ∧ dotsPlaced false false (renderTop e) = true ∧ dropTrailDots false false (renderTop e) = renderTop e
+    ∧ ∀ lc : LexCfg, lc.post (renderTop e) = renderTop e :=
+  ⟨fnsPlaced_renderTop e, retagFns_renderTop e, dotsPlaced_renderTop e, dropTrailDots_renderTop e,
+   fun lc => post_renderTop lc e⟩
+
+/-- the lexer (with the operator-name, function-name and trailing-dot rules or without) reads the characters of the canonical spelling
     back as exactly the rendered tokens, adjacency flags included -/
 theorem lexer_inverts_canonical_spelling (lc : LexCfg) (e : Expr) (h : wfE e = true)
     (hn : namesOk lc e = true) : lex lc (spellToks (renderTop e)) = .ok (renderTop e) :=
@@ -297,9 +379,10 @@ theorem string_roundtrip_spec (e : Expr) (h : wfE e = true) (hn : namesOk lexSpe
     parseSpec (spellToks (renderTop e)) = .ok (normCtx e) :=
   parseSpec_spelling e h hn
 
-/-- **model_and_spec_read_alike** — the two formulations of XPath's rule for the operator names
-    (xsel: `retagOps` on the token list after the lexer; the specification: `Cfg.opNames` in the
-    parser, by grammar position) agree on every canonical spelling.  (`hs` follows from `hn`:
+/-- **model_and_spec_read_alike** — the two formulations of XPath's rules for the operator names, the
+    function names and `Digits '.'` (xsel: `retagOps`, `retagFns`, `dropTrailDots` on the token list
+    after the lexer; the specification: `Cfg.opNames`, `Cfg.fnNames`, `Cfg.trailDot` in the parser, by
+    grammar position) agree on every canonical spelling.  (`hs` follows from `hn`:
     `namesOk_model_spec`, see `model_and_spec_read_alike'`.) -/
 theorem model_and_spec_read_alike (e : Expr) (h : wfE e = true) (hn : namesOk lexModel e = true)
     (hs : namesOk lexSpec e = true) :
@@ -329,23 +412,26 @@ theorem operator_names_are_names :
     ∧ parseSpec "div div div mod mod".toList = parseModel "div div div mod mod".toList
     ∧ parseSpec "or or and and or".toList = parseModel "or or and and or".toList := by
   -- the tokens of the four strings: after xsel's lexer (operator names retagged), after XPath's
-  let d : Tok := .ncname ['d','i','v']
-  let m1 : Toks := [⟨.p .dslash, false⟩, ⟨d, true⟩]
-  let m2 : Toks := [⟨.ncname ['a'], false⟩, ⟨.kw .div, false⟩, ⟨d, false⟩]
-  let m3 : Toks := [⟨d, false⟩, ⟨.kw .div, false⟩, ⟨d, false⟩, ⟨.kw .mod, false⟩, ⟨.ncname ['m','o','d'], false⟩]
-  let m4 : Toks := [⟨.ncname ['o','r'], false⟩, ⟨.kw .or, false⟩, ⟨.ncname ['a','n','d'], false⟩,
-    ⟨.kw .and, false⟩, ⟨.ncname ['o','r'], false⟩]
-  let s1 : Toks := [⟨.p .dslash, false⟩, ⟨.kw .div, true⟩]
-  let s2 : Toks := [⟨.ncname ['a'], false⟩, ⟨.kw .div, false⟩, ⟨.kw .div, false⟩]
-  let s3 : Toks := [⟨.kw .div, false⟩, ⟨.kw .div, false⟩, ⟨.kw .div, false⟩, ⟨.kw .mod, false⟩, ⟨.kw .mod, false⟩]
-  let s4 : Toks := [⟨.kw .or, false⟩, ⟨.kw .or, false⟩, ⟨.kw .and, false⟩, ⟨.kw .and, false⟩, ⟨.kw .or, false⟩]
-  have h1 := parseModel_of (cs := "//div".toList) m1 rfl rfl
-  have h2 := parseModel_of (cs := "a div div".toList) m2 rfl rfl
-  have h3 := parseModel_of (cs := "div div div mod mod".toList) m3 rfl rfl
-  have h4 := parseModel_of (cs := "or or and and or".toList) m4 rfl rfl
-  exact ⟨h1, h2, h3, h4,
-    (parseSpec_of s1 rfl rfl).trans h1.symm, (parseSpec_of s2 rfl rfl).trans h2.symm,
-    (parseSpec_of s3 rfl rfl).trans h3.symm, (parseSpec_of s4 rfl rfl).trans h4.symm⟩
+  have h1 := parseModel_of (cs := "//div".toList)
+    [⟨.p .dslash, false⟩, ⟨.ncname ['d','i','v'], true⟩] (by decide +kernel) rfl
+  have h2 := parseModel_of (cs := "a div div".toList)
+    [⟨.ncname ['a'], false⟩, ⟨.kw .div, false⟩, ⟨.ncname ['d','i','v'], false⟩] (by decide +kernel) rfl
+  have h3 := parseModel_of (cs := "div div div mod mod".toList)
+    [⟨.ncname ['d','i','v'], false⟩, ⟨.kw .div, false⟩, ⟨.ncname ['d','i','v'], false⟩, ⟨.kw .mod, false⟩,
+     ⟨.ncname ['m','o','d'], false⟩] (by decide +kernel) rfl
+  have h4 := parseModel_of (cs := "or or and and or".toList)
+    [⟨.ncname ['o','r'], false⟩, ⟨.kw .or, false⟩, ⟨.ncname ['a','n','d'], false⟩, ⟨.kw .and, false⟩,
+     ⟨.ncname ['o','r'], false⟩] (by decide +kernel) rfl
+  have g1 := parseSpec_of (cs := "//div".toList) [⟨.p .dslash, false⟩, ⟨.kw .div, true⟩] (by decide +kernel) rfl
+  have g2 := parseSpec_of (cs := "a div div".toList)
+    [⟨.ncname ['a'], false⟩, ⟨.kw .div, false⟩, ⟨.kw .div, false⟩] (by decide +kernel) rfl
+  have g3 := parseSpec_of (cs := "div div div mod mod".toList)
+    [⟨.kw .div, false⟩, ⟨.kw .div, false⟩, ⟨.kw .div, false⟩, ⟨.kw .mod, false⟩, ⟨.kw .mod, false⟩]
+    (by decide +kernel) rfl
+  have g4 := parseSpec_of (cs := "or or and and or".toList)
+    [⟨.kw .or, false⟩, ⟨.kw .or, false⟩, ⟨.kw .and, false⟩, ⟨.kw .and, false⟩, ⟨.kw .or, false⟩]
+    (by decide +kernel) rfl
+  exact ⟨h1, h2, h3, h4, g1.trans h1.symm, g2.trans h2.symm, g3.trans h3.symm, g4.trans h4.symm⟩
 
 example : parseModel "//div".toList
     = .ok (.step (.step .root .descendantOrSelf .node .nil) .child (.name ['d','i','v']) .nil) :=
@@ -357,9 +443,96 @@ example : parseModel "a div div".toList
 
 /-- a misplaced operator name is still an error: two operands in a row, an operator at the end -/
 example : parseModel "a div".toList = .err ∧ parseModel "a b div".toList = .err :=
-  ⟨parseModel_err_of [⟨.ncname ['a'], false⟩, ⟨.kw .div, false⟩] rfl (by decide +kernel) (by decide +kernel) rfl,
-   parseModel_err_of [⟨.ncname ['a'], false⟩, ⟨.ncname ['b'], false⟩, ⟨.kw .div, false⟩] rfl
+  ⟨parseModel_err_of [⟨.ncname ['a'], false⟩, ⟨.kw .div, false⟩] (by decide +kernel) (by decide +kernel)
+     (by decide +kernel) rfl,
+   parseModel_err_of [⟨.ncname ['a'], false⟩, ⟨.ncname ['b'], false⟩, ⟨.kw .div, false⟩] (by decide +kernel)
      (by decide +kernel) (by decide +kernel) rfl⟩
+
+/-- **function_names_may_be_keywords** — XPath: a name in front of `(` is a function name unless it is a
+    node type.  xsel's generated lexer returns `self`, `text`, … as keyword tokens wherever they stand;
+    `grammar.disambiguateFunctionNames` (`retagFns`) turns an axis-name or node-type keyword that is
+    the whole name, the local part or the prefix of a function name back into a name.  So `self()` and
+    `p:text()` are function calls, `text()` is still the node test — and XPath 1.0's syntax
+    (`Cfg.fnNames`, in the parser) reads the three strings the same way. -/
+theorem function_names_may_be_keywords :
+    parseModel "self()".toList = .ok (.call .ctx none ['s','e','l','f'] .nil)
+    ∧ parseModel "p:text()".toList = .ok (.call .ctx (some ['p']) ['t','e','x','t'] .nil)
+    ∧ parseModel "text()".toList = .ok (.step .ctx .child .text .nil)
+    ∧ parseSpec "self()".toList = .ok (.call .ctx none ['s','e','l','f'] .nil)
+    ∧ parseSpec "p:text()".toList = .ok (.call .ctx (some ['p']) ['t','e','x','t'] .nil)
+    ∧ parseSpec "text()".toList = .ok (.step .ctx .child .text .nil) :=
+  ⟨parseModel_of [⟨.ncname ['s','e','l','f'], false⟩, ⟨.p .lparen, true⟩, ⟨.p .rparen, true⟩]
+     (by decide +kernel) rfl,
+   parseModel_of [⟨.ncname ['p'], false⟩, ⟨.p .colon, true⟩, ⟨.ncname ['t','e','x','t'], true⟩,
+     ⟨.p .lparen, true⟩, ⟨.p .rparen, true⟩] (by decide +kernel) rfl,
+   parseModel_of [⟨.kw .text, false⟩, ⟨.p .lparen, true⟩, ⟨.p .rparen, true⟩] (by decide +kernel) rfl,
+   parseSpec_of [⟨.kw (.axis .self), false⟩, ⟨.p .lparen, true⟩, ⟨.p .rparen, true⟩] (by decide +kernel) rfl,
+   parseSpec_of [⟨.ncname ['p'], false⟩, ⟨.p .colon, true⟩, ⟨.kw .text, true⟩,
+     ⟨.p .lparen, true⟩, ⟨.p .rparen, true⟩] (by decide +kernel) rfl,
+   parseSpec_of [⟨.kw .text, false⟩, ⟨.p .lparen, true⟩, ⟨.p .rparen, true⟩] (by decide +kernel) rfl⟩
+
+/-- the tokens: xsel's lexer hands the parser names, XPath's lexer the keywords (its parser decides);
+    a keyword as prefix (`child:f()`), and an axis name that is followed by `::` stays the axis -/
+example : lex lexModel "self()".toList
+      = .ok [⟨.ncname ['s','e','l','f'], false⟩, ⟨.p .lparen, true⟩, ⟨.p .rparen, true⟩]
+    ∧ lex lexSpec "self()".toList = .ok [⟨.kw (.axis .self), false⟩, ⟨.p .lparen, true⟩, ⟨.p .rparen, true⟩]
+    ∧ lex lexModel "child:f()".toList
+      = .ok [⟨.ncname ['c','h','i','l','d'], false⟩, ⟨.p .colon, true⟩, ⟨.ncname ['f'], true⟩,
+             ⟨.p .lparen, true⟩, ⟨.p .rparen, true⟩]
+    ∧ lex lexModel "self::text()".toList
+      = .ok [⟨.kw (.axis .self), false⟩, ⟨.p .coloncolon, true⟩, ⟨.kw .text, true⟩, ⟨.p .lparen, true⟩,
+             ⟨.p .rparen, true⟩] := by
+  decide +kernel
+
+/-- **trailing_dot_is_a_number** — XPath's Number is `Digits ('.' Digits?)? | '.' Digits`: `1.` is the
+    number 1.  The compiled grammar has no `Digits '.'`; `grammar.dropTrailingDots` (`dropTrailDots`)
+    drops a `.` that directly follows integer-part digits and is not directly followed by digits.  The
+    `.` after a fraction (`.5.`, `1.5.`) is not a trailing dot: those strings stay errors — and XPath
+    1.0's syntax (`Cfg.trailDot`, in the parser) reads all four strings the same way. -/
+theorem trailing_dot_is_a_number :
+    parseModel "1.".toList = .ok (.num (.fin 1))
+    ∧ parseModel "1. + .5".toList = .ok (.bin .add (.num (.fin 1)) (.num (.fin (1/2))))
+    ∧ parseModel ".5.".toList = .err
+    ∧ parseModel "1.5.".toList = .err
+    ∧ parseSpec "1.".toList = .ok (.num (.fin 1))
+    ∧ parseSpec "1. + .5".toList = .ok (.bin .add (.num (.fin 1)) (.num (.fin (1/2))))
+    ∧ parseSpec ".5.".toList = .err
+    ∧ parseSpec "1.5.".toList = .err := by
+  have n1 : numOf ['1'] = .num (.fin 1) := numOf_of_rnd (by decide +kernel)
+  have n5 : numOf ['.','5'] = .num (.fin (1/2)) := numOf_of_rnd (by decide +kernel)
+  have m1 : parseModel "1.".toList = .ok (numOf ['1']) :=
+    parseModel_of [⟨.digits ['1'], false⟩] (by decide +kernel) rfl
+  have m2 : parseModel "1. + .5".toList = .ok (.bin .add (numOf ['1']) (numOf ['.','5'])) :=
+    parseModel_of [⟨.digits ['1'], false⟩, ⟨.p .plus, false⟩, ⟨.p .dot, false⟩, ⟨.digits ['5'], true⟩]
+      (by decide +kernel) rfl
+  have s1 : parseSpec "1.".toList = .ok (numOf ['1']) :=
+    parseSpec_of [⟨.digits ['1'], false⟩, ⟨.p .dot, true⟩] (by decide +kernel) rfl
+  have s2 : parseSpec "1. + .5".toList = .ok (.bin .add (numOf ['1']) (numOf ['.','5'])) :=
+    parseSpec_of [⟨.digits ['1'], false⟩, ⟨.p .dot, true⟩, ⟨.p .plus, false⟩, ⟨.p .dot, false⟩,
+      ⟨.digits ['5'], true⟩] (by decide +kernel) rfl
+  rw [n1] at m1 s1
+  rw [n1, n5] at m2 s2
+  exact ⟨m1, m2,
+    parseModel_err_of [⟨.p .dot, false⟩, ⟨.digits ['5'], true⟩, ⟨.p .dot, true⟩] (by decide +kernel)
+      (by decide +kernel) (by decide +kernel) rfl,
+    parseModel_err_of [⟨.digits ['1'], false⟩, ⟨.p .dot, true⟩, ⟨.digits ['5'], true⟩, ⟨.p .dot, true⟩]
+      (by decide +kernel) (by decide +kernel) (by decide +kernel) rfl,
+    s1, s2,
+    parseSpec_err_of [⟨.p .dot, false⟩, ⟨.digits ['5'], true⟩, ⟨.p .dot, true⟩] (by decide +kernel)
+      (by decide +kernel),
+    parseSpec_err_of [⟨.digits ['1'], false⟩, ⟨.p .dot, true⟩, ⟨.digits ['5'], true⟩, ⟨.p .dot, true⟩]
+      (by decide +kernel) (by decide +kernel)⟩
+
+/-- the tokens: the `.` of `1.` is gone after xsel's lexer and still there after XPath's; the `.` of `1 .`
+    (white space) and of `1.5` stay; the token after a dropped `.` no longer counts as adjacent -/
+example : lex lexModel "1.".toList = .ok [⟨.digits ['1'], false⟩]
+    ∧ lex lexSpec "1.".toList = .ok [⟨.digits ['1'], false⟩, ⟨.p .dot, true⟩]
+    ∧ lex lexModel "1 .".toList = .ok [⟨.digits ['1'], false⟩, ⟨.p .dot, false⟩]
+    ∧ lex lexModel "1.5".toList = .ok [⟨.digits ['1'], false⟩, ⟨.p .dot, true⟩, ⟨.digits ['5'], true⟩]
+    ∧ lex lexModel "1.+2".toList = .ok [⟨.digits ['1'], false⟩, ⟨.p .plus, false⟩, ⟨.digits ['2'], true⟩]
+    ∧ lex lexModel "1.5.".toList
+      = .ok [⟨.digits ['1'], false⟩, ⟨.p .dot, true⟩, ⟨.digits ['5'], true⟩, ⟨.p .dot, true⟩] := by
+  decide +kernel
 
 /-- `//p:a[last() < 2.5]/@b | "it's"`: a union, a path with a predicate, a prefixed name, a call, a
     number with a fraction, a literal that contains a quote -/
